@@ -45,8 +45,30 @@ def finding_signatures(pid):
     return m
 
 
-def judge(pl, verdict, pid, sigmap, bodies, extra_key=None):
-    """Turn the pipeline's mismatches into attributions / violations. One violation per program."""
+def finding_diffvars(pid):
+    """signature -> the variables (and #fault / #nohalt) that differed for programs of that shape when the finding was recorded"""
+    m = {}
+    for f in common.load_findings():
+        if f["property"] == pid and f.get("status") == "open":
+            for s, vs in f.get("diffvars", {}).items():
+                m[s] = set(vs)
+    return m
+
+
+def diff_vars(ms):
+    out = set()
+    for m in ms:
+        out |= set(x for x in m["want"] if m["got"].get(x) != m["want"].get(x))
+        if m.get("fault"):
+            out.add("#fault")
+        if not m.get("halted", True):
+            out.add("#nohalt")
+    return out
+
+
+def judge(pl, verdict, pid, sigmap, bodies, extra_key=None, diffmap=None):
+    """Turn the pipeline's mismatches into attributions / violations. One violation per program.
+    diffmap: a listed shape is attributed only if nothing differs that did not differ when it was listed."""
     bad = {}
     for m in pl.mismatches:
         bad.setdefault(m["id"], []).append(m)
@@ -55,6 +77,9 @@ def judge(pl, verdict, pid, sigmap, bodies, extra_key=None):
         sg = sig.signature(bodies[cid]) if cid in bodies and bodies[cid] is not None else None
         key = sg if extra_key is None else extra_key(cid, sg)
         fid = sigmap.get(key)
+        if fid and diffmap is not None and key in diffmap and not (diff_vars(ms) <= diffmap[key]):
+            ms = [m for m in ms if not (diff_vars([m]) <= diffmap[key])] or ms
+            fid = None       # a listed shape, but more goes wrong now than the listed defect explains
         if fid:
             verdict.attribute(fid)
             continue
@@ -95,7 +120,7 @@ def c01(tier):
             bodies[cid + "-signed"] = p["body"]
     pl = refine.Pipeline("c01", tier=tier)
     pl.run(cases, sem=True, pair=False, maxin=16 if tier == "quick" else 48, small_fams=SMALL_FAMS)
-    nbad = judge(pl, verdict, pid, finding_signatures(pid), bodies)
+    nbad = judge(pl, verdict, pid, finding_signatures(pid), bodies, diffmap=finding_diffvars(pid))
     st = pl.stats
     if st["programs"] - st["rejected"] - st["crashed"] - st["linkerr"] < 10 or st["src_ok"] < 100:
         raise common.ToolError("vacuous run: %s" % json.dumps(st))
@@ -115,7 +140,7 @@ def c01(tier):
         if cids:
             pl2 = refine.Pipeline("c01fp", tier=tier)
             pl2.run([c for c in cases if c["id"] in set(cids)], sem=True, pair=False, maxin=48, small_fams=SMALL_FAMS)      # the cap of the known-findings baseline: no input beyond it
-            nbad2 = judge(pl2, verdict, pid, finding_signatures(pid), bodies)
+            nbad2 = judge(pl2, verdict, pid, finding_signatures(pid), bodies, diffmap=finding_diffvars(pid))
             layer2.update(candidates_executed_on_more_inputs=pl2.stats["programs"], inputs=pl2.stats["inputs"], candidates_confirmed=nbad2)
             st["states"] += pl2.stats["states"]
             st["behaviours"] += pl2.stats["behaviours"]
